@@ -409,7 +409,7 @@ class Engine:
         if op in ('call', 'invoke') and I.callee.kind == 'global' and I.callee.name in VISIBLE_RT: return True
         return False
     # ------------------------------------------------------------------ run
-    def run(s, t, starts, stop_visible=True):
+    def run(s, t, starts, stop_visible=True, first_visible_ok=True):
         """Execute thread t from the control states `starts` (ctrl -> (guard, env)) until each path has executed ONE
         visible operation and reached its next one (stop_visible) or finished.  Paths reaching the same control tuple
         are merged (guards or-ed, differing live registers ite-merged).  Returns ctrl -> (guard, env)."""
@@ -426,7 +426,7 @@ class Engine:
             o = out.get(ctrl)
             if o is None: out[ctrl] = (g, env)
             else: out[ctrl] = (merge(o[0], g), s.merge_env(ctrl, o[0], o[1], g, env))
-        for c, (g, env) in starts.items(): push(c, True, g, env)
+        for c, (g, env) in starts.items(): push(c, first_visible_ok, g, env)
         budget = s.max_ins
         while heap:
             _, vis_ok, ctrl = heapq.heappop(heap)
@@ -726,11 +726,11 @@ class Engine:
             if r is None or r.kind != 'exc': continue
             s.mem.store1(r.base, 8, binop('add', s.mem.load1(r.base, 8), 1, 64), gg)
     # ------------------------------------------------------------------ blocking helpers
-    def mutex_of_cvwait(s, f, I, nm):
+    def mutex_of_cvwait(s, f, I, nm, sg=True):
         if nm == '_ZNSt18condition_variable4waitERSt11unique_lockISt5mutexE':
-            ul = s.val(f, I.args[1]); return s.mem.load(ul, 8, True, 'cv.wait', check=False)
+            ul = s.val(f, I.args[1]); return s.mem.load(ul, 8, sg, 'cv.wait', check=False)
         return s.val(f, I.args[1])
-    def enabled(s, t, ctrl, env=None):
+    def enabled(s, t, ctrl, env=None, sg=True):
         """enabledness guard of control tuple ctrl of thread t (True for ordinary code)"""
         fr = ctrl[0]
         if fr[0] == 'done': return False
@@ -740,22 +740,22 @@ class Engine:
         if nm not in VISIBLE_RT: return True
         s.cur = t; s.depth = len(ctrl); s.env = env
         if nm == 'pthread_mutex_lock':
-            return icmp('eq', s.mem.load(s.val(f, I.args[0]), 4, True, 'mutex', check=False), 0, 32)
+            return icmp('eq', s.mem.load(s.val(f, I.args[0]), 4, sg, 'mutex', check=False), 0, 32)
         if nm in CV_WAIT and len(fr) > 3:
-            mfree = icmp('eq', s.mem.load(s.mutex_of_cvwait(f, I, nm), 4, True, 'mutex', check=False), 0, 32)
+            mfree = icmp('eq', s.mem.load(s.mutex_of_cvwait(f, I, nm, sg), 4, sg, 'mutex', check=False), 0, 32)
             wk = s.tstate[t].get('woken', False)
             if nm != '_ZNSt18condition_variable4waitERSt11unique_lockISt5mutexE':
                 wk = gor(wk, s.timed_out(f, I))          # timed wait: also enabled once the (ghost) clock reached the deadline
             elif s.opts.get('spurious'): wk = True
             return gand(mfree, wk)
         if nm == '_ZNSt6thread4joinEv':
-            tid = s.mem.load(s.val(f, I.args[0]), 8, True, 'thread::join', check=False)
+            tid = s.mem.load(s.val(f, I.args[0]), 8, sg, 'thread::join', check=False)
             en = False
             for k, u in s.opts.get('thread_of_body', {}).items():
                 en = gor(en, gand(icmp('eq', tid, int(k) + 1, 64), s.ctrlsets[int(u)].get((('done',),), (False, None))[0]))
             return en
         if nm == 'vf_wait_until_eq':
-            return icmp('eq', s.mem.load(s.val(f, I.args[0]), 4, True, 'vf_wait_until_eq', check=False), s.val(f, I.args[1]), 32)
+            return icmp('eq', s.mem.load(s.val(f, I.args[0]), 4, sg, 'vf_wait_until_eq', check=False), s.val(f, I.args[1]), 32)
         if nm == 'vf_thread_body':
             k = s.val(f, I.args[0])
             return k < len(s.spawned) if isinstance(k, int) else False
@@ -983,7 +983,10 @@ class Engine:
             if g is not True: raise Unsupported('std::thread created under a symbolic guard')
             th, st = A(0), A(1)
             state = s.mem.load(st, 8, g, 'thread ctor'); s.mem.store(st, 8, 0, g, 'thread ctor')
-            s.spawned.append(state); s.mem.store(th, 8, len(s.spawned), g, 'thread ctor'); return
+            s.spawned.append(state); s.mem.store(th, 8, len(s.spawned), g, 'thread ctor')
+            rg = s.mem.region_of(state) if isinstance(state, int) else None
+            if rg is not None: rg.kind = 'thread-state'      # owned by the (stubbed) thread runtime: not part of the leak check
+            return
         if nm == 'vf_thread_body':
             k = A(0)
             if not isinstance(k, int) or k >= len(s.spawned): raise EngineLimit('vf_thread_body: no such std::thread')
